@@ -215,12 +215,14 @@ fn classify(t: &Triple, at: usize, a: &[String], b: &[String]) -> Option<&'stati
         let healed = if ka == "final.clocks" {
             true
         } else {
-            let opkey = ka.replace(".clocks", ".op");
-            a[..at]
-                .iter()
-                .rev()
-                .take(3)
-                .any(|l| key_of(l) == opkey && value_of(l).starts_with("HEAL"))
+            // one of this round's operations was a HEAL
+            let opkey = ka.replace(".clocks", ".op[");
+            ka == "healed.clocks"
+                || a[..at]
+                    .iter()
+                    .rev()
+                    .take(40)
+                    .any(|l| key_of(l).starts_with(&opkey) && value_of(l).starts_with("HEAL"))
         };
         return if healed { Some(KF05) } else { None };
     }
